@@ -46,16 +46,46 @@ func hostileCall(req hostileReq) hostileResp {
 			c15Child.kill()
 			c15Child = nil
 		}
+		if resp.Timeout && attempt == 0 {
+			if c15HangConfirmed {
+				resp.Hang = true
+				return resp
+			}
+			// the statement lists "hangs" beside panics: the same input is given to a fresh child with 90 s more.
+			// Inputs are a few kilobytes and are decoded in milliseconds even on a loaded machine, so no answer
+			// within 20 s and again within 90 s (two processes) is a hang, not slowness.
+			ch, err := startHostileChild()
+			if err != nil {
+				return resp
+			}
+			c15Child = ch
+			resp2, died2 := c15Child.call(req, 90*time.Second)
+			if died2 {
+				c15Child.kill()
+				c15Child = nil
+			}
+			if resp2.Timeout {
+				c15HangConfirmed = true
+				resp2.Hang = true
+			}
+			return resp2
+		}
 		return resp
 	}
 }
 
 const allocSlack = 1 << 20
 
+// c15HangConfirmed: an input was given to two child processes (20 s, then 90 s) and neither answered; later
+// 20 s timeouts of this process (the shrinker's attempts) are then taken as the same hang without waiting again.
+var c15HangConfirmed bool
+
 func runC15(c C15Case, ev *Evid) (fs []Finding) {
 	resp := hostileCall(hostileReq{Target: c.Target, Data: c.Data, Now: c.Now, Claim: c.Claim, Status: c.Status, Listing: c.Listing, Alter: c.Alter})
 	desc := fmt.Sprintf("target=%s origin=%s%s %d bytes %s", c.Target, c.Origin, map[bool]string{true: " alter=" + c.Alter}[c.Alter != ""], len(c.Data), hexHead(c.Data, 48))
 	switch {
+	case resp.Timeout && resp.Hang:
+		return []Finding{{Property: "C15", Key: "hang", Detail: desc + ": no answer within 20 s and, from a fresh process, within 90 s (the statement excludes hangs)"}}
 	case resp.Timeout:
 		// a true hang cannot be told from slowness: reported as inconclusive by the driver (DESIGN section 8)
 		ev.Class("timeout-inconclusive")
@@ -555,8 +585,8 @@ func TestC15(t *testing.T) {
 	}()
 	RunProperty(t, Property[C15Case]{
 		ID:          "C15",
-		Rule:        "byte strings for 12 targets (every TakeFrom; Open on a file with those bytes followed by fetches, raw dumps, single and batch updates and Sync on a handle that opened; view / view-raw / sum against a hostile HTTP server replying with the bytes): 10% random, else a specification-encoded valid message mutated by truncation, bit flips, substitution of 32/64-bit fields by extreme constants (0, 1, 2^31-1, 2^31, 2^32-1, 0x15555556, values whose product with 8/12/16 wraps 32 or 64 bits) or body truncation; executed in a child process with RLIMIT_AS = 3 GiB. Violation: panic, child death (out of memory / stack overflow), or more than 1 MiB + 64 x input length bytes allocated (runtime/metrics /gc/heap/allocs:bytes). A 20 s per-input timeout is reported as inconclusive. Two-sided commands (diff / copy / sum-diff with one side remote) ask for one archive or all; origin relayed-with-altered-query serves healthy files through a relay that alters the query (other archive selection, shifted window ends, other clock); files whose step field makes the retention exceed the clock (D22). Non-trivial: the input is at least as long as the decoder's fixed part (it reaches the size arithmetic). Distinct = hash of (target, bytes, clock).",
-		Assumptions: []string{"allocation bound 1 MiB + 64 x input length (file targets: input length = file size)", "a hang is indistinguishable from slowness and is reported as inconclusive"},
+		Rule:        "byte strings for 12 targets (every TakeFrom; Open on a file with those bytes followed by fetches, raw dumps, single and batch updates and Sync on a handle that opened; view / view-raw / sum against a hostile HTTP server replying with the bytes): 10% random, else a specification-encoded valid message mutated by truncation, bit flips, substitution of 32/64-bit fields by extreme constants (0, 1, 2^31-1, 2^31, 2^32-1, 0x15555556, values whose product with 8/12/16 wraps 32 or 64 bits) or body truncation; executed in a child process with RLIMIT_AS = 3 GiB. Violation: panic, child death (out of memory / stack overflow), or more than 1 MiB + 64 x input length bytes allocated (runtime/metrics /gc/heap/allocs:bytes). An input that gets no answer within 20 s is given to a fresh child for 90 s more: no answer again is a hang (violation); an answer then is slowness and is judged as usual. Two-sided commands (diff / copy / sum-diff with one side remote) ask for one archive or all; origin relayed-with-altered-query serves healthy files through a relay that alters the query (other archive selection, shifted window ends, other clock); files whose step field makes the retention exceed the clock (D22). Non-trivial: the input is at least as long as the decoder's fixed part (it reaches the size arithmetic). Distinct = hash of (target, bytes, clock).",
+		Assumptions: []string{"allocation bound 1 MiB + 64 x input length (file targets: input length = file size)", "a hang is told from slowness by a second run of the same input in a fresh process with 90 s; only a timeout that cannot be confirmed stays inconclusive"},
 		Gen:         genC15,
 		Run:         runC15,
 		Fixed:       c15Fixed,
